@@ -156,6 +156,7 @@ struct BoxT final : Box
     static constexpr bool kIsSet    = (TAG == Cont::ut_set);
     static constexpr bool kIsTlru   = (TAG == Cont::tlru);
     static constexpr bool kIsFifo   = (TAG == Cont::fifo);
+    static constexpr uint32_t kStaleVal = 0x7ffffff0u; // never written by any plan
 
     std::unique_ptr<C> c;
 
@@ -369,6 +370,32 @@ struct BoxT final : Box
     void find_fill(const std::vector<Item>& keys, bool peek, int form, Result& res) override
     {
         using opt_t = std::conditional_t<kIsSet, bool, std::optional<V>>;
+        // forms 5 / 6: the caller's container already holds values from an earlier round; every slot
+        // must be overwritten (absent keys reset to nullopt / false)
+        auto stale = [&]() -> opt_t {
+            if constexpr (kIsSet)
+                return true;
+            else
+                return opt_t{VC::enc(kStaleVal)};
+        };
+        if (form == 6)
+        {
+            std::map<K, opt_t> r;
+            for (auto& it : keys)
+                r.emplace(KC::enc(it.key), stale());
+            call_find_fill(r, peek);
+            encode_pairs(r, res);
+            return;
+        }
+        if (form == 5)
+        {
+            std::vector<std::pair<K, opt_t>> r;
+            for (auto& it : keys)
+                r.emplace_back(KC::enc(it.key), stale());
+            call_find_fill(r, peek);
+            encode_pairs(r, res);
+            return;
+        }
         if (form == 2)
         {
             std::map<K, opt_t> r;
